@@ -6,7 +6,7 @@ import struct
 from vlib import core, e2e
 from vlib.coord_common import first_diff
 
-MODS = ['S4V.Props.SortSpec', 'S4V.Props.FilterSpec', 'S4V.Props.FixedSpec', 'S4V.Props.FixedRenderSpec']
+MODS = ['S4V.Props.SortSpec', 'S4V.Props.FilterSpec', 'S4V.Props.FixedSpec', 'S4V.Props.FixedRenderSpec', 'S4V.Props.LayoutDetectSpec']
 LEVEL_NOTE = ("Proved over the model of `insert into BTreeMap, walk in key order` with the key shape, the window comparisons and the null-record test "
               "regenerated from fixedstructreader.rs on every run: every non-null in-window record exactly once, ordered by time value, equal times in file order "
               "(C08_order = stable sort), both window bounds inclusive. WHICH value is the record's time is proved too (FixedSpec), over a table regenerated from "
@@ -26,7 +26,12 @@ ASSUME = ["the Linux x86_64 utmpx, acct_v3 (pacct) and lastlog layouts are synth
           "`fixed` (time value) and `frender` (text) and the shipped samples",
           "as_bytes: text fields with bytes >= 0x80 print NUL bytes (c_char is i8), a newline inside a text field splits the line, the trailing NUL (F12) - modelled as coded, "
           "proved as counter-models (C08_render_injective_on_shown_full_false, C08_render_single_line_full_false)",
-          "layout detection (filesz_to_types / score_file) is not modelled (synthesised files are built so that the intended layout scores highest)",
+          "layout detection is modelled as coded (LayoutDetectSpec over Gen.LayoutDetect: candidate rows of filesz_to_types, the 16 score programs translated from score_fixedstruct with the 8 "
+          "scoring macros pinned, the sampling limit and the comparison operators of score_file, the ordered candidate set): every layout is a candidate of every file of n records of it "
+          "(C08_candidates_by_size_full_holds; the missing NetBSD amd64 lastlogx row was repaired by 4785b3f3), the chosen layout is the first maximum in declaration order and a function of the bytes "
+          "(C08_choice_deterministic; the run-to-run dependence on the HashMap seed was repaired by dcd20bd2), only the first 5 non-null records are scored (C08_choice_depends_on_sampled_prefix); "
+          "tie: component `layout` (real FixedStructReader::new / score_fixedstruct vs the model). Detection is a heuristic: a well-formed acct_v3 record can score higher as acct "
+          "(C08_kind_bonus_decides_full_false, known finding F32); the scorer's CStr::from_ptr can read past a record without NUL (C08_score_reads_in_bounds_full_false, excluded from the comparison)",
           "byte order: both readers are native pointer reads; the model decodes little-endian (x86_64 / aarch64 builds)",
           "struct layout computation in the translator assumes x86_64 C layout (primitive alignment = size); all 167 assertcp_eq! layout assertions of "
           "fixedstruct.rs are re-checked against it on every run",
@@ -376,8 +381,28 @@ def model_compare(ctx, name, reqs, impl):
     return res
 
 
+AMBIGUOUS_V3 = bytes([0, 3, 0, 0, 0, 0, 0, 0, 0, 47, 104, 89, 0, 47, 104, 89, 210, 4, 0, 0, 1, 0, 0, 0, 0, 241, 83, 101, 0, 0, 192, 63] + [32] * 16
+                     + [107, 119, 111, 114, 107, 101, 114] + [0] * 9)
+
+
+def known_acct_v3_witness(ctx):
+    """known finding F32: a well-formed acct_v3 record (LayoutDetectSpec.ambiguousV3) in a file named pacct is read as acct"""
+    d = os.path.join(ctx.work, 'f32')
+    os.makedirs(d, exist_ok=True)
+    p = os.path.join(d, 'pacct')
+    open(p, 'wb').write(AMBIGUOUS_V3)
+    rc, out, err, _ = e2e.s4(e2e.BASE_ARGS + [p])
+    fails = []
+    if out and b' ac_pid ' not in out and b'ac_btime 1500000000' in out:
+        fails.append({'signature': 'fixedstruct:acct-v3-read-as-acct', 'detail': 'the acct_v3 record (ac_btime 1700000000, ac_uid = ac_gid = 1500000000, ac_comm kworker) is printed with the '
+                      'acct layout: ' + out[:160].decode('latin1'), 'file_hex': AMBIGUOUS_V3.hex(), 'name': 'pacct'})
+    elif not out or b'ac_btime 1700000000' not in out:
+        fails.append({'signature': 'fixedstruct:acct-v3-witness-unexpected', 'detail': f'rc={rc} stdout {out[:200]!r} stderr {err[-200:]!r}'})
+    return {'evaluations': 1, 'distinct_nontrivial': 1, 'failures': fails, 'samples': [], 'rule': 'the acct_v3 / acct ambiguity witness of LayoutDetectSpec through the binary'}
+
+
 def check(ctx):
-    ok_gen = core.step_gen(ctx, ['Keys', 'Filter', 'Fixed', 'FixedRender'])
+    ok_gen = core.step_gen(ctx, ['Keys', 'Filter', 'Fixed', 'FixedRender', 'LayoutDetect'])
     prove = core.step_prove(ctx, MODS) if ok_gen else {'module': ' '.join(MODS), 'obligations': 0, 'discharged': 0}
     ok_drv = core.step_drv(ctx) if (ok_gen or ctx.search_mode) else False
     ok_impl = core.step_build_impl(ctx)
@@ -388,9 +413,17 @@ def check(ctx):
             corr.append(core.correspond(ctx, 'fixed', ctx.q(3600, 16000)))
             # the real FixedStruct::as_bytes on records of every layout vs the render programs translated from it
             corr.append(core.correspond(ctx, 'frender', ctx.q(8000, 64000)))
+            # which layout a file is read with: the real FixedStructReader::new / score_fixedstruct vs Model.LayoutDetect
+            os.environ.setdefault('S4H_TMP', os.path.join(core.BUILD, 'tmp'))
+            corr.append(core.correspond(ctx, 'layout', ctx.q(6000, 50000)))
         orc1, corr1 = oracle_and_corr(ctx)
         orc2, corr2 = oracle_and_corr2(ctx)
-        orc = core.merge_oracles([orc1, orc2])
+        # every layout, in-process: files through the real FixedStructReader driven as exec_fixedstructprocessor drives it;
+        # order must be the stable sort by the time field read with its declared width/signedness (times across 2^31 / 2^32 / year 2100)
+        orc3 = core.harness_oracle(ctx, 'fixedfile', ctx.q(480, 6400),
+                                   'fixedfile: per layout (16) files of 2-13 plausible records (ties, null records, times across 2^31, 2^32 and 2100 where the field allows) '
+                                   'through the real FixedStructReader (new / fileoffset_first / process_entry_at): each non-null record once, stable order by (sec, usec); files detected as another layout are skipped')
+        orc = core.merge_oracles([orc1, orc2, orc3, known_acct_v3_witness(ctx)])
         corr += corr1 + corr2
     return core.decide(ctx, prove, corr, orc, LEVEL_NOTE, ASSUME)
 
